@@ -64,6 +64,7 @@ class PathExec:
         self.side = side
         self.cmp = Comparer(side, side)
         self.cmp.cursors = []
+        self.returns = False        # True: a `return` item ends its path (recorded in env.returned) instead of failing
 
     def paths(self, items: list, env: Env, reg_stores: List[tuple], conds: List[tuple]):
         """yield (env, stores, conds) for every path; stores = [(array, rec)] in program order"""
@@ -99,6 +100,11 @@ class PathExec:
             yield from self.paths(rest, e, st, conds)
         elif it[0] in ('def', 'import'):
             yield from self.paths(rest, env, reg_stores, conds)
+        elif it[0] == 'return' and self.returns:
+            # the path ends here (an early return in an arm of the epilogue): the caller reads `env.returned`
+            e = env.copy()
+            e.returned = it
+            yield e, reg_stores, conds
         else:
             raise Inconclusive(f"path enumeration: `{it[0]}` inside a loop body at "
                                f"{self.side.fi.path}:{getattr(it[-1], 'lineno', '?')}")
@@ -433,8 +439,10 @@ def _template(eng, fam, rule, pairname, where, ckey, ret_p, ret_s, parts_p, part
     else:
         obs.append(inconclusive(rule, f"{pairname}: prologues have the same paths", where, construct=f"{ckey}::prologue"))
     # ---- epilogue
+    ps.returns = True
     epi_s = list(ps.paths([it for it in post_s if it[0] != 'return'], env_for(ss), [], []))
-    ret_node = next((it for it in post_s if it[0] == 'return'), None)
+    ps.returns = False
+    ret_node_top = next((it for it in post_s if it[0] == 'return'), None)
     params = [a.arg for a in single.node.args.args]
     t_start, t_end = params[2], params[3]
     for n_path, (e_s, st_s, c_s) in enumerate(epi_s):
@@ -460,6 +468,7 @@ def _template(eng, fam, rule, pairname, where, ckey, ret_p, ret_s, parts_p, part
         else:
             obs.append(violation(rule, t, where, key=f"{_fn(single)}::template::epilogue",
                                  detail=f"increment {C.show(inc)}; expected {C.show(expect) if expect is not None else '?'}"))
+        ret_node = e_s.returned or ret_node_top
         if ret_node is not None:
             rv = C.canon_expr(ret_node[1], e_s)
             # returned: acc_final / (t_end - t_start)
